@@ -26,8 +26,8 @@ S_DIRECT = [
     dict(h0=1, s0=10, s1=70000, s2=5, pos=1, target=300000, no_holes=True, read_twice=False),
     dict(h0=0, s0=10, s1=7, s2=5, pos=3, target=12, no_holes=False, read_twice=True),
 ]
-B_LOOSE = 's0 in [0,140000]; s1 in [1,140000]; existing form in {loose, packed, both}; damaged loose copy symbolic'
-S_LOOSE = [dict(s0=10, s1=70000, form=2, damaged=True), dict(s0=0, s1=70000, form=0, damaged=False)]
+B_LOOSE = 's0 in [0,140000]; s1 in [1,140000]; existing form in {loose, packed, both}; damaged loose copy symbolic; first read of the new input stream short by a symbolic amount'
+S_LOOSE = [dict(s0=10, s1=70000, form=2, damaged=True, cut=0), dict(s0=0, s1=70000, form=0, damaged=False, cut=4096)]
 B_CRASH = 'h0 in [0,2]; sp,s0,s1 in [1,70000]; target in [1,200000]; crash/fault index in the slice named by the cell'
 S_CRASH = dict(h0=1, sp=10, s0=66000, s1=5, target=12)
 SWEEP = list(range(1, 61))
@@ -37,7 +37,7 @@ S_ZREAD = dict(n=100, total=40, before=1, pos=0, c=0, u=0, a=30, tape=[0, 10, 30
 B_HANDLES = 'sp,s0,s1 in [1,70000]; first query in {none,has,list,meta,get}; pack, clean symbolic; second query in {has,get,meta,list}'
 
 
-from harness.slices import slices_for  # noqa: E402
+from harness.slices import NOFSYNC, OPS, slices_for  # noqa: E402
 
 
 def cell(name, module, function, timeout, **kw):
@@ -116,6 +116,8 @@ def crash_cells(kind, ops):
     out = []
     for prefix, bounds, thorough_only in (('q_', B_CRASH_Q, False), ('', B_CRASH, True)):
         for op in ops:
+            if kind == 'power' and op in NOFSYNC:
+                continue
             for lo, hi in slices_for(kind, op):
                 name = '%s%s_%s_%d' % (prefix, kind, op, lo)
                 out.append(
@@ -135,13 +137,41 @@ def monitor_cells(ops):
     out = []
     for prefix, bounds, thorough_only in (('q_', B_CRASH_Q, False), ('', B_CRASH, True)):
         for op in ops:
-            if op != 'delete':
+            if op != 'delete' and op not in NOFSYNC:
                 out.append(cell(prefix + 'monitor_' + op, 'harness.g_crash', prefix + 'monitor_' + op, (300, 900),
                                 bounds=bounds + '; op=' + op, samples=[S_CRASH], thorough_only=thorough_only))
     return out
 
 
-ALL_OPS = ('pack', 'pack_clean', 'direct', 'direct_noholes', 'loose', 'delete')
+# ---------------------------------------------------------------- import (C14)
+from harness import gen as _gen  # noqa: E402
+
+_IMP_DEFAULT = dict(kind=0, cb=True, f0=1, f1=2, d1=1, s0=66000, s1=7, s2=5, s3=3, z0=30, r0=True, r1=True, r2=True,
+                    rabs=True, rep=True, tmb=6, compress=True, target=50)
+_IMP_DEFAULT2 = dict(_IMP_DEFAULT, f0=2, f1=0, d1=2, s0=9, tmb=70000, compress=False, target=10**4, rep=False, kind=3)
+B_IMPORT = ('source container: obj0/obj1 in forms {loose, packed, packed compressed}, obj2 loose; destination: obj3 packed '
+            'after a hole, obj1 absent/loose/packed; requested subset + absent key + repeated key; s0 in [1,70000], other '
+            'sizes <= 100; target_memory_bytes and destination pack_size_target in [1,80000]; parameters fixed per cell: ')
+
+
+def import_cells():
+    out = []
+    for name, fixed in _gen.import_cells().items():
+        free = [p[0] for p in _gen.IMPORT_SPEC if p[0] not in fixed]
+        c = cell(name, 'harness.g_import', name, (400, 1200), bounds=B_IMPORT + repr(fixed))
+        if fixed.get('what') == 'reach':
+            c['expect'] = 'REFUTED'
+            c['timeout'] = (200, 400)
+        else:
+            c['samples'] = [{k: _IMP_DEFAULT[k] for k in free}, {k: _IMP_DEFAULT2[k] for k in free}]
+        out.append(c)
+    return out
+
+
+IMPORT = import_cells()
+
+
+ALL_OPS = OPS
 F_WRITE = [
     'Container.pack_all_loose', 'Container.clean_storage', 'Container.add_streamed_objects_to_pack',
     'Container.add_streamed_object', 'Container._write_data_to_packfile', 'Container._get_pack_id_to_write_to',
@@ -191,16 +221,22 @@ CHECKS = {
     ),
     'C05': dict(
         cells=crash_cells('kill', ALL_OPS),
-        functions=F_WRITE + ['Container.delete_objects'],
+        functions=F_WRITE + ['Container.delete_objects', 'Container.repack', 'Container.repack_pack', 'Container.import_objects'],
         assumptions=['kernel-visible image photographed at a symbolic I/O step (user-space buffers lost); operations: '
                      'pack_all_loose(+clean_storage) with/without clean_loose_per_pack, direct to pack with/without '
-                     'no_holes, add loose, delete; repack not covered'],
+                     'no_holes, add loose, delete, repack (hole + 2 packed objects), import_objects from a second container '
+                     '(one loose + one packed source object, in-memory cache branch), pack_all_loose / direct to pack with '
+                     'do_fsync=False; oracle on the raw image (index rows + byte slices, pack -1 included); the read-back '
+                     'through a fresh handle on the image is not part of these cells'],
     ),
     'C06': dict(
         cells=crash_cells('power', ALL_OPS) + monitor_cells(ALL_OPS),
         functions=F_WRITE + ['Container.delete_objects'],
         assumptions=['durable image = every regular file cut to its last fsynced length; directory operations and index '
-                     'commits durable (as the property states); default fsync settings'],
+                     'commits durable (as the property states); default fsync settings; operations as C05 except the '
+                     'do_fsync=False variants; ordering monitor: every committed row that is new or moved lies in the synced '
+                     'prefix of its pack, a loose file is unlinked only under a committed durable row, a pack file is removed '
+                     'or renamed away only when no committed row references it'],
     ),
     'C07': dict(
         cells=[
@@ -268,6 +304,18 @@ CHECKS = {
         assumptions=['pre-state: one pack (possibly already above the target) with holes; symbolic pack_size_target so '
                      'that the pack switch falls anywhere in the batch'],
     ),
+    'C14': dict(
+        cells=IMPORT,
+        functions=['Container.import_objects', 'Container.add_objects_to_pack', 'Container.add_streamed_object_to_pack',
+                   'Container.add_streamed_objects_to_pack', 'Container._write_data_to_packfile',
+                   'Container.get_objects_stream_and_meta', 'utils.detect_where_sorted', 'utils.merge_sorted',
+                   'utils.yield_first_element', 'utils.compute_hash_and_size', 'utils.rename_callback'] + F_READ,
+        assumptions=['two model containers in one model environment (own index each), hash types {sha1, sha256}^2 with one '
+                     'injective key table per algorithm; cell families: iterable kind x callback x hash pair (small loose '
+                     'objects), the three cache branches (symbolic target_memory_bytes, sizes), source x destination forms '
+                     '(incl. compressed source objects and compress=True), destination pack switching; the families are '
+                     'not crossed with each other'],
+    ),
     'C16': dict(
         cells=[
             cell('where_spec', 'harness.h_merge', 'where_spec', (300, 900), bounds='two sorted unique int lists, len <= 4',
@@ -311,7 +359,8 @@ CHECKS = {
         functions=F_WRITE + ['Container.delete_objects'],
         assumptions=['single fault: the I/O-relevant call number `at` raises OSError before taking effect (SQL statements '
                      'and commits included; reported as OSError, which the code under test does not catch either); then '
-                     'the handle is closed, stale lock files removed and the operation rerun on a new handle'],
+                     'the handle is closed, stale lock files removed and the operation rerun on a new handle (no rerun is '
+                     'demanded after an interrupted repack); operations as C05'],
     ),
     'C18': dict(
         cells=PACK_INV + PACK_VIEWS + DIRECT_INV + LOOSE_INV,
